@@ -1041,8 +1041,28 @@ def gen_forms(ctx):
         if rng.random() < 0.4:
             m = n
         a = np.array([[rng.randint(0, 9) for _ in range(m)] for _ in range(n)], dtype=rng.choice([np.int64, np.float64]))
-        form = rng.choice(["list", "tuple", "matrix", "masked-nomask", "fortran", "strided", "readonly"])
+        form = rng.choice(["list", "tuple", "matrix", "masked-nomask", "fortran", "strided", "readonly", "memoryview", "array-protocol"])
         yield "form:" + form, a, form
+    # non-native byte order (data read with np.frombuffer / np.fromfile / memmap): the narrow types with values that need the
+    # promotion to 64 bits (integer spread beyond the type's range; float32 values differing beyond its mantissa after reduction)
+    for _ in range(ctx.scale(60, 600)):
+        n, m = rng.randint(2, 5), rng.randint(2, 5)
+        dt = rng.choice([">i2", ">u2", ">i4", ">u4", ">f4", ">f2", ">i8", ">f8"])
+        if dt in (">i2",):
+            vals = [[rng.choice([-30000, 30000, -32000, 32000]) + rng.randint(-9, 9) for _ in range(m)] for _ in range(n)]
+        elif dt == ">u2":
+            vals = [[rng.choice([0, 65000, 33000]) + rng.randint(0, 9) for _ in range(m)] for _ in range(n)]
+        elif dt == ">i4":
+            vals = [[rng.choice([-2**31 + 10, 2**31 - 20, 0]) + rng.randint(0, 9) for _ in range(m)] for _ in range(n)]
+        elif dt == ">u4":
+            vals = [[rng.choice([0, 2**32 - 20, 2**31]) + rng.randint(0, 9) for _ in range(m)] for _ in range(n)]
+        elif dt == ">f4":
+            vals = [[float(rng.choice([0, 2**20, -(2**20)]) + rng.randint(0, 9)) for _ in range(m)] for _ in range(n)]
+        elif dt == ">f2":
+            vals = [[float(rng.choice([0, 1024, -1024]) + rng.randint(0, 9)) for _ in range(m)] for _ in range(n)]
+        else:
+            vals = [[rng.randint(-9, 9) for _ in range(m)] for _ in range(n)]
+        yield "form:byteswapped:" + dt, np.array(vals, dtype=dt), "plain"
     for _ in range(ctx.scale(3, 12)):
         n, m = rng.randint(130, 180), rng.randint(130, 180)
         if rng.random() < 0.5:
@@ -1073,6 +1093,17 @@ def in_form(a, form):
         b = a.copy()
         b.setflags(write=False)
         return b
+    if form == "memoryview":
+        return memoryview(a.copy())
+    if form == "array-protocol":
+        class _Wrap:  # an array-like that hands out ITS OWN storage (DataFrame-like wrappers do)
+            def __init__(self, x):
+                self.x = x
+
+            def __array__(self, dtype=None, copy=None):
+                return self.x if dtype is None else self.x.astype(dtype, copy=False)
+
+        return _Wrap(a.copy())
     return a
 
 
@@ -1080,7 +1111,14 @@ def forms_phase(ctx, out: Outcome):
     for tag, arr, form in gen_forms(ctx):
         arg = in_form(arr, form)
         res = call_impl(arg, full=False, limit=120.0)
-        res_idx = call_impl(in_form(arr, form), full=False, limit=120.0, return_cost=False)
+        # the caller's matrix is the caller's: still the same values after the call, and a second call on the very same object
+        # gives the same answer
+        after = np.asarray(arg.x if form == "array-protocol" else arg)
+        if after.shape == arr.shape and not np.array_equal(after, arr):
+            out.violations.append(Finding("oracle:input_modified", {"matrix": case_json(arr), "op": "X", "form": form}, observed=case_json(np.asarray(after))["entries"][:12],
+                                          detail=f"[cost matrix passed as {form}] the caller's matrix was overwritten by linear_sum_assignment"))
+            continue
+        res_idx = call_impl(arg if form in ("memoryview", "array-protocol", "readonly", "fortran", "strided") else in_form(arr, form), full=False, limit=120.0, return_cost=False)
         out.evaluations += 2
         out.count("block:" + tag)
         out.nontrivial(key_of(arr) + form)
